@@ -483,6 +483,19 @@ def o_eras(c):
                 return F("era-year-outside-range-accepted", c, f"era {e.name}: year_of_era {yoe} outside [{lo}, {hi}] accepted")
     if k.min_year not in seen or k.max_year not in seen:
         return F("eras-do-not-cover-year-range", c, f"extreme years reachable through eras: {sorted(seen)}")
+    # every era the calendar does NOT list (compared by identity: two eras are both called "AM") must be refused
+    E = _P().calendars.Era
+    universe = [E.common, E.before_common, E.anno_martyrum, E.anno_mundi, E.anno_hegirae, E.anno_persico, E.bahai]
+    for e in universe:
+        if any(e is x for x in es):
+            continue
+        for what, fn in (("get_absolute_year(1, era)", lambda e=e: k.get_absolute_year(1, e)),
+                         ("get_min_year_of_era(era)", lambda e=e: k.get_min_year_of_era(e)),
+                         ("get_max_year_of_era(era)", lambda e=e: k.get_max_year_of_era(e)),
+                         ("LocalDate(1, first month, 1, calendar, era)", lambda e=e: _P().LocalDate(max(1, k.min_year), fm(c), 1, k, e))):
+            if not raises_value_error(fn):
+                return F("foreign-era-accepted", c, f"{what} accepts the era {e.name} ({e._resource_identifier if hasattr(e, '_resource_identifier') else ''}), "
+                         f"which is not one of the calendar's eras {[x.name for x in es]}")
     return None
 
 
